@@ -242,7 +242,7 @@ func c01Matrix(c *mon.Ctx, idx int) {
 		{"nested", univ.IfaceMap("o", univ.IfaceMap("v", z.N)), []xgen.Sel{{Parts: []string{"o", "v"}, Spell: []int{xgen.SpDot, xgen.SpBrackDQ}}, {Parts: []string{"o", "v"}, JSONPointer: true}}},
 		{"ptr-struct", univ.Ptr(univ.Struct(wrapT, z.N, univ.Int(1))), []xgen.Sel{{Parts: []string{"v"}, JSONPointer: true}}},
 	}
-	subs := [][]string{nil, {"0"}, {"abc"}, {"5"}, {"A"}, {"zz"}}
+	subs := [][]string{nil, {"0"}, {"abc"}, {"5"}, {"A"}, {"zz"}, {"1", "0"}, {"abc", "abc"}, {"abc", "5"}, {"Base", "A"}, {"Base", "abc"}, {"B"}, {"C"}, {"0", "0"}}
 	n := 0
 	for _, h := range holders {
 		for _, base := range h.sel {
@@ -368,7 +368,7 @@ func c01Required(tier string) []string {
 func init() {
 	mon.Register(&mon.Prop{
 		ID: "C01", Level: "exploration",
-		Rule: "(a) deterministic matrix, enumerated completely on every run: a zoo of ~95 value shapes (14 scalar kinds, named types, json.Number incl. hostile ones, nil, pointer levels, typed / named / interface slices and arrays with nil and odd elements, string / named-string / int / bool / float / interface keyed maps, structs, chan/func/complex) x 4 holders and selector spellings x 6 sub-paths x 8 operators x 20 literal classes (matching, ill-typed, out-of-range, base-prefixed, wrap-around) + 6 quantifier forms; (b) a seeded logical JSON-like document (boundary scalars, nested objects/lists, odd keys) is materialised in 5 Go representations (all-interface{}, json.Number, typed containers+tagged structs incl. hidden/unexported fields, typed+pointers, per-node mix); 3 datum-directed expressions per case (depth<=4, quantifier nesting<=3, every operator, binding mode, selector spelling, literal style; 25% deliberately broken paths; literals equal / different / ill-typed) are rendered, passed through the real parser and Evaluate, and compared with the set of outcomes an independent interpreter of the documented semantics allows (options: tag name, unknown value). non-trivial = the reference determines the outcome (not on the explicit unspecified list); distinct by (canonical expression, datum representation shape, options)",
+		Rule: "(a) deterministic matrix, enumerated completely on every run: a zoo of ~95 value shapes (14 scalar kinds, named types, json.Number incl. hostile ones, nil, pointer levels, typed / named / interface slices and arrays with nil and odd elements, string / named-string / int / bool / float / interface keyed maps, structs, chan/func/complex) x 4 holders and selector spellings x 14 sub-paths x 8 operators x 20 literal classes (matching, ill-typed, out-of-range, base-prefixed, wrap-around) + 6 quantifier forms; (b) a seeded logical JSON-like document (boundary scalars, nested objects/lists, odd keys) is materialised in 5 Go representations (all-interface{}, json.Number, typed containers+tagged structs incl. hidden/unexported fields, typed+pointers, per-node mix); 3 datum-directed expressions per case (depth<=4, quantifier nesting<=3, every operator, binding mode, selector spelling, literal style; 25% deliberately broken paths; literals equal / different / ill-typed) are rendered, passed through the real parser and Evaluate, and compared with the set of outcomes an independent interpreter of the documented semantics allows (options: tag name, unknown value). non-trivial = the reference determines the outcome (not on the explicit unspecified list); distinct by (canonical expression, datum representation shape, options)",
 		Assumptions: []string{
 			"reference semantics = internal/refsem, written from README/doc comments/property statements; cases on its explicit unspecified list (counted as unspecified_skipped with the reason) are not compared",
 			"literal spellings are those of strconv (ParseBool, base-0 ParseInt/ParseUint, ParseFloat), which is the documented meaning",
